@@ -180,6 +180,22 @@ class Gen:
         if k < 0.45:
             return ("f", "ASC", self.sexpr(depth, ctx))
         if k < 0.65:
+            if r.random() < 0.6:
+                # needle related to the haystack (case split of instr_spec: absent / first of several occurrences / at the
+                # end / whole string / empty / longer than the haystack); a two-letter alphabet makes repeats the rule
+                hay = "".join(r.choice("ab") if r.random() < 0.8 else r.choice("c x") for _ in range(r.choice([1, 2, 3, 4, 6, 9])))
+                m = r.random()
+                if m < 0.55:
+                    i = r.randrange(len(hay)); ndl = hay[i:i + r.choice([1, 1, 2, 3])]
+                elif m < 0.7:
+                    ndl = hay[-r.choice([1, 2]):]
+                elif m < 0.8:
+                    ndl = hay
+                elif m < 0.9:
+                    ndl = hay + r.choice("ab")
+                else:
+                    ndl = r.choice(["", "d", "ba", "ab"])
+                return ("raw", 'INSTR("%s", "%s")' % (hay, ndl), 6)
             return ("raw", "INSTR(%s, %s)" % (self.pr(self.sexpr(depth, ctx), 6), self.pr(self.sexpr(0, ctx), 6)), 6)
         if k < 0.8:
             a = self.sexpr(depth, ctx)
